@@ -157,23 +157,27 @@ func (e *verifBridgeEnv) where(id uint64) int {
 func VerifC05BatchLifecycle() {
 	e := verifBridgeState()
 	e.k.SetLastObservedBlockHeight(e.ctx, 1000, 90)
-	fees := [3]sdkmath.Int{verifSmallFee("fee1"), verifSmallFee("fee2"), verifSmallFee("fee3")}
-	for i := 0; i < 3; i++ {
+	nTx := rt.Bound("pooledTransfers", 3, 4)
+	var fees []sdkmath.Int
+	for i := 0; i < nTx; i++ {
+		fees = append(fees, verifSmallFee([]string{"fee1", "fee2", "fee3", "fee4"}[i]))
+	}
+	for i := 0; i < nTx; i++ {
 		tx := &types.OutgoingTransferTx{Id: uint64(i + 1), Sender: verifUser1.String(), DestAddress: verifAddrB,
 			Token: types.NewERC20Token(sdkmath.NewInt(int64(100+i)), verifTokenA), Fee: types.NewERC20Token(fees[i], verifTokenA)}
 		if err := e.k.AddUnbatchedTx(e.ctx, tx); err != nil {
 			rt.Assert(false, "harness: cannot fill pool")
 		}
 	}
-	e.store().Set(types.KeyLastTxPoolID, sdk.Uint64ToBigEndian(4))
-	maxEl := uint(1 + rt.Choose("maxElements", 3))
+	e.store().Set(types.KeyLastTxPoolID, sdk.Uint64ToBigEndian(uint64(nTx+1)))
+	maxEl := uint(1 + rt.Choose("maxElements", nTx))
 	baseFee := sdkmath.NewInt([]int64{0, 3, 9}[rt.Choose("baseFee", 3)])
 	rt.Cover("state-built")
 
 	b1, err := e.k.BuildOutgoingTxBatch(e.ctx, verifTokenA, verifAddrB, maxEl, sdkmath.ZeroInt(), baseFee)
 	if err != nil {
 		rt.Cover("no-batch")
-		for id := uint64(1); id <= 3; id++ {
+		for id := uint64(1); id <= uint64(nTx); id++ {
 			rt.Assert(e.where(id) == 1, "a refused batch request leaves every transfer in the pool")
 		}
 		return
@@ -188,7 +192,7 @@ func VerifC05BatchLifecycle() {
 		rt.Assert(tx.Fee.Amount.GTE(baseFee), "batched transfer pays at least the base fee")
 		minIn = sdkmath.MinInt(minIn, tx.Fee.Amount)
 	}
-	for id := uint64(1); id <= 3; id++ {
+	for id := uint64(1); id <= uint64(nTx); id++ {
 		w := e.where(id)
 		rt.Assert(w == 1 || w == 2, "every transfer is in exactly one place (pool or the batch)")
 		if w == 1 && uint(len(b1.Transactions)) < maxEl {
@@ -204,7 +208,7 @@ func VerifC05BatchLifecycle() {
 			rt.Assert(false, "an existing batch can be cancelled")
 		}
 		rt.Cover("batch-cancelled")
-		for id := uint64(1); id <= 3; id++ {
+		for id := uint64(1); id <= uint64(nTx); id++ {
 			rt.Assert(e.where(id) == 1, "cancelled batch returned every transfer to the pool")
 			tx, gerr := e.k.GetUnbatchedTxById(e.ctx, id)
 			if gerr == nil {
@@ -213,7 +217,7 @@ func VerifC05BatchLifecycle() {
 		}
 	default: // build a second batch at a later height and execute it first
 		e.ctx = e.ctx.WithBlockHeight(101)
-		b2, err := e.k.BuildOutgoingTxBatch(e.ctx, verifTokenA, verifAddrB, 3, sdkmath.ZeroInt(), sdkmath.ZeroInt())
+		b2, err := e.k.BuildOutgoingTxBatch(e.ctx, verifTokenA, verifAddrB, uint(nTx), sdkmath.ZeroInt(), sdkmath.ZeroInt())
 		if err != nil {
 			rt.Cover("no-second-batch")
 			return
@@ -225,7 +229,7 @@ func VerifC05BatchLifecycle() {
 		}
 		e.k.OutgoingTxBatchExecuted(e.ctx, verifTokenA, b2.BatchNonce)
 		rt.Assert(e.k.GetOutgoingTxBatch(e.ctx, verifTokenA, 2) == nil && e.k.GetOutgoingTxBatch(e.ctx, verifTokenA, 1) == nil, "executed batch is gone and the older batch of the token is cancelled")
-		for id := uint64(1); id <= 3; id++ {
+		for id := uint64(1); id <= uint64(nTx); id++ {
 			settled := false
 			for _, x := range in2 {
 				if x == id {
